@@ -366,9 +366,10 @@ static void sg_add_hosts(vh_rng_t *r, sg_plan_t *p, cfg_sys_t *sys)
     if (vh_chance(r, 1, 6)) {
       sg_ws(r, &bb);
     }
-    if (vh_chance(r, 1, 5)) {
-      /* hosts(5): text from a '#' to the end of the line is a comment */
-      cfg_bb_str(&bb, vh_chance(r, 1, 2) ? " # 192.0.2.99 commented.out" : "\t#comment");
+    if (vh_chance(r, 1, 4)) {
+      /* hosts(5): text from a '#' to the end of the line is a comment - with or without a blank in front of it */
+      static const char *const cm[] = { " # 192.0.2.99 commented.out", "\t#comment", "#the main server", "#" };
+      cfg_bb_str(&bb, cm[vh_below(r, 4)]);
     }
     cfg_bb_str(&bb, "\n");
     if (vh_chance(r, 1, 6)) {
